@@ -294,3 +294,4 @@ impl Gc {
     #[verifier::external_body]
     pub fn memory_limit(&self) -> usize { unimplemented!() }
 }
+
